@@ -21,9 +21,9 @@ package middlewares
 //@   at call GetAccessControls#1
 //@     ghost aclG := acl
 //@   loop 1
-//@     invariant -1 <= $i && $i < len(roles)
-//@     invariant forall k int :: 0 <= k && k <= $i ==> roles[k] != "admin"
-//@     decreases len(roles) - $i
+//@     invariant -1 <= $i && $i < len(cast(token.Claims, "*security.CustomClaims").Roles)
+//@     invariant forall k int :: 0 <= k && k <= $i ==> cast(token.Claims, "*security.CustomClaims").Roles[k] != "admin"
+//@     decreases len(cast(token.Claims, "*security.CustomClaims").Roles) - $i
 
 // ---------------------------------------------------------------------------
 // C16: token validation: a token is accepted only if it parsed and verified, is Valid, carries an accepted
